@@ -206,6 +206,42 @@ enum Op {
     Tick,
     /// wait until everything stored so far has expired
     LongWait,
+    /// two overlapping calls for one key whose stores are staggered, with a lookup in
+    /// between: call 1 and call 2 are issued together, call 1 resolves (store), the key is
+    /// looked up once more (normally a hit), then call 2 resolves (overwrites the entry)
+    Staggered { key: u8 },
+}
+
+/// Advance the candidate set by one observed lookup: `missed` = the call reached the inner
+/// service; for a hit, `hit` carries the returned response.
+fn apply_lookup(cands: &[Model], cfg: &CacheCfg, key: u8, now: u64, missed: bool, hit: Option<&Resp>) -> Vec<Model> {
+    let mut next = vec![];
+    for c in cands {
+        for (lk, m) in c.lookups(cfg, key, now) {
+            match (lk, missed) {
+                (Lookup::Hit(s), false) => {
+                    if hit.map_or(true, |r| r.serial == s && r.key == key) {
+                        next.push(m);
+                    }
+                }
+                (Lookup::Miss, true) => next.push(m),
+                _ => {}
+            }
+        }
+    }
+    next.sort();
+    next.dedup();
+    next
+}
+
+fn apply_insert(cands: &[Model], cfg: &CacheCfg, key: u8, serial: u32, now: u64) -> Vec<Model> {
+    let mut next = vec![];
+    for c in cands {
+        next.extend(c.inserts(cfg, key, serial, now));
+    }
+    next.sort();
+    next.dedup();
+    next
 }
 
 struct C10 {
@@ -224,6 +260,9 @@ impl C10 {
         for key in 0..self.cfg.keys.min(2) {
             v.push(Op::Get { key, ok: false, svc: 0 });
         }
+        for key in 0..self.cfg.keys.min(2) {
+            v.push(Op::Staggered { key });
+        }
         if let Some(t) = self.cfg.ttl {
             v.push(Op::Tick);
             if t > Q {
@@ -239,6 +278,7 @@ fn op_name(o: &Op) -> String {
         Op::Get { key, ok, svc } => format!("get_{}_inner_{}_via_{}", (b'A' + key) as char, if *ok { "ok" } else { "err" }, if *svc == 0 { "svc1" } else { "svc2" }),
         Op::Tick => format!("wait_{Q}ms"),
         Op::LongWait => "wait_until_all_expired".to_string(),
+        Op::Staggered { key } => format!("two_overlapping_gets_of_{}_with_a_lookup_between_their_stores", (b'A' + key) as char),
     }
 }
 
@@ -279,6 +319,89 @@ impl SeqScenario for C10 {
                     if last {
                         outcome = "long_wait".into();
                     }
+                }
+                Op::Staggered { key } => {
+                    let t0 = w.now_ms();
+                    {
+                        let mut g = w.inner.lock().unwrap();
+                        g.script.clear();
+                        g.script.push_back(Plan::after(10, Out::Ok));
+                        g.script.push_back(Plan::after(20, Out::Ok));
+                        g.default_plan = Plan::now(Out::Ok);
+                    }
+                    let mut fail = |cands: &Vec<Model>, what: &str, viols: &mut Vec<Viol>| {
+                        viols.push(Viol::new("overlapping_gets_mismatch", site, format!("{} at {}ms: {what}; reference cache {:?}", op_name(op), t0, cands.iter().map(|c| c.canon(t0, cfg.ttl)).collect::<Vec<_>>())));
+                    };
+                    let calls_now = |w: &World| w.inner.lock().unwrap().calls.len();
+                    // both calls are issued (lookups happen inside call())
+                    req_id += 1;
+                    let r1 = Req::new(req_id, *key);
+                    req_id += 1;
+                    let r2 = Req::new(req_id, *key);
+                    let n0 = calls_now(&w);
+                    let f1 = w.block_on(async {
+                        let _ = futures::future::poll_fn(|cx| Service::<Req>::poll_ready(&mut s1, cx)).await;
+                        s1.call(r1)
+                    });
+                    let n1 = calls_now(&w);
+                    let f2 = w.block_on(async {
+                        let _ = futures::future::poll_fn(|cx| Service::<Req>::poll_ready(&mut s2, cx)).await;
+                        s2.call(r2)
+                    });
+                    let n2 = calls_now(&w);
+                    let (m1, m2) = (n1 > n0, n2 > n1);
+                    let mut next = apply_lookup(&cands, cfg, *key, t0, m1, None);
+                    next = apply_lookup(&next, cfg, *key, t0, m2, None);
+                    if next.is_empty() {
+                        fail(&cands, &format!("first call {} and second call {} the inner service", if m1 { "reached" } else { "did not reach" }, if m2 { "reached" } else { "did not reach" }), &mut viols);
+                        break;
+                    }
+                    // call 1 resolves
+                    let res1 = w.block_on(f1);
+                    let now1 = w.now_ms();
+                    match (&res1, m1) {
+                        (Ok(r), true) => next = apply_insert(&next, cfg, *key, r.serial, now1),
+                        (Ok(_), false) => {}
+                        (Err(_), _) => {
+                            fail(&cands, "first call failed although the inner service answers ok", &mut viols);
+                            break;
+                        }
+                    }
+                    // a lookup in between
+                    req_id += 1;
+                    let r3 = Req::new(req_id, *key);
+                    let n3 = calls_now(&w);
+                    let res3 = w.block_on(async {
+                        let _ = futures::future::poll_fn(|cx| Service::<Req>::poll_ready(&mut s1, cx)).await;
+                        s1.call(r3).await
+                    });
+                    let m3 = calls_now(&w) > n3;
+                    let now3 = w.now_ms();
+                    let before3 = next.clone();
+                    next = apply_lookup(&next, cfg, *key, now1, m3, if m3 { None } else { res3.as_ref().ok() });
+                    if let (true, Ok(r)) = (m3, &res3) {
+                        next = apply_insert(&next, cfg, *key, r.serial, now3);
+                    }
+                    if next.is_empty() {
+                        fail(&before3, &format!("the lookup between the two stores {} the inner service and returned {:?}", if m3 { "reached" } else { "did not reach" }, res3), &mut viols);
+                        break;
+                    }
+                    // call 2 resolves and overwrites
+                    let res2 = w.block_on(f2);
+                    let now2 = w.now_ms();
+                    if let (Ok(r), true) = (&res2, m2) {
+                        next = apply_insert(&next, cfg, *key, r.serial, now2);
+                    }
+                    if trace {
+                        log.push(format!("{:>5}ms {} -> miss1={m1} miss2={m2} between: miss={m3} {:?}; results {:?} / {:?}", t0, op_name(op), res3, res1, res2));
+                    }
+                    if last {
+                        outcome = format!("staggered:{m1}{m2}{m3}");
+                        if m1 && m2 {
+                            witnesses.push("entry_overwritten_by_late_second_store");
+                        }
+                    }
+                    cands = next;
                 }
                 Op::Get { key, ok, svc } => {
                     let now = w.now_ms();
@@ -656,10 +779,10 @@ fn main() {
     rep.assumptions = vec![
         "points left open are set-valued: LFU victim among equal frequencies, an entry looked up at exactly its TTL, and whether an already expired entry may be evicted instead of the policy's victim".into(),
     ];
-    for w in ["hit", "insert_into_full_cache", "several_admissible_states", "lookup_of_expired_entry", "lookup_exactly_at_ttl", "two_misses_on_one_key_in_flight", "entry_overwritten_by_second_miss"] {
+    for w in ["hit", "insert_into_full_cache", "several_admissible_states", "lookup_of_expired_entry", "lookup_exactly_at_ttl", "entry_overwritten_by_late_second_store", "two_misses_on_one_key_in_flight", "entry_overwritten_by_second_miss"] {
         rep.require_witness(w);
     }
-    let depth = tier.pick(9, 11);
+    let depth = tier.pick(8, 10);
     let scns: Vec<C10> = grid(tier).into_iter().map(|cfg| C10 { cfg }).collect();
     rep.bounds = json!({"depth": depth, "configurations": scns.len(), "keys": 3});
     seq::par_configs(&scns, &mut rep, |s, r| {
